@@ -42,6 +42,7 @@ type TCase struct {
 	Events   []TEvent `json:"events"`
 	Obs      []TObs   `json:"obs"`
 	Stopped  bool     `json:"stopped"`
+	Final    *TObs    `json:"final,omitempty"` // after the server has stopped
 }
 
 var tailFiles = []string{"a.log", "b.log", "c.log"}
@@ -265,6 +266,21 @@ func runTail(c *TCase) []tfinding {
 	select {
 	case <-ret:
 		c.Stopped = true
+		// the end of the run: the tailer has closed the loader's channel and the
+		// loader has returned.  Streams may have flushed an unterminated last line
+		// on their way out; whatever they counted, the loader must have received.
+		o := observe()
+		c.Final = &o
+		var sum int64
+		for _, f := range tailFiles {
+			sum += o.LogLines[f]
+		}
+		if o.LinesTotal != sum {
+			out = append(out, tfinding{"lines-total-vs-streams-after-shutdown", fmt.Sprintf("after the server stopped: the streams delivered %d lines (log_lines_total summed over the logs), lines_total says %d", sum, o.LinesTotal)})
+		}
+		if o.LinesTotal < total {
+			out = append(out, tfinding{"lines-total-vs-streams-after-shutdown", fmt.Sprintf("after the server stopped: lines_total says %d, but %d lines had been delivered before", o.LinesTotal, total)})
+		}
 	case <-time.After(10 * time.Second):
 		out = append(out, tfinding{"server-did-not-stop", "mtail.Server.Run did not return within 10 s of the cancellation"})
 	}
